@@ -14,8 +14,9 @@
 EXTENDS Integers, Sequences, FiniteSets, TLC, Json
 
 CONSTANTS MaxSteps,    \* length bound of a behaviour
-          FinProgs,    \* finalize-hook programmes explored: subset of {"drain","never","done","hasty"}
-                       \* (hasty: answers finalized at once although it wants the child gone and the child still exists)
+          FinProgs,    \* finalize-hook programmes explored: subset of {"drain","never","done","hasty","keep"}
+                       \* (hasty: answers finalized at once although it wants the child gone and the child still exists;
+                       \*  keep: not finalized yet and still wants the child -- e.g. a clean-up job -- so a missing child is created)
           Kinds,       \* subset of {"composite","decorator"}
           Beh
 
@@ -65,7 +66,7 @@ Sync ==
                 \* 2. hook choice
                 LET fz == finOn /\ (p1.deleting \/ ~p1.match)
                     \* answers: sync hook wants the child; finalize hook per programme
-                    wantKid == IF fz THEN (fprog = "done") ELSE TRUE
+                    wantKid == IF fz THEN (fprog \in {"done", "keep"}) ELSE TRUE
                     finalized == fz /\ (fprog \in {"done", "hasty"} \/ (fprog = "drain" /\ ~kids))
                     \* 3. finalizer removed when finalized (RemoveFinalizer is a no-op if absent)
                     p2 == [p1 EXCEPT !.fin = IF finalized THEN FALSE ELSE @]
